@@ -90,7 +90,8 @@ def ob_bucket(chk, ir):
         st = State()
         F = lambda v: z3.FPVal(float(v), z3.Float64())
         EPS = rate * 2e-9      # the library admits when the missing fraction of a token is worth less than a nanosecond (duration truncation)
-        st.pc += [z3.fpGEQ(tokens, F(-EPS)), z3.fpLEQ(tokens, F(burst)), last <= now, now - last <= lib.T(10**6 * SEC), now >= lib.T(1577836800 * SEC), now <= lib.T(3976214400 * SEC)]
+        st.pc += [z3.fpGEQ(tokens, F(-EPS)), z3.fpLEQ(tokens, F(burst)), last <= now, last >= lib.T(lib.ZERO_NS),      # last is a time.Time the limiter stored: never before the zero Time
+                   now - last <= lib.T(10**6 * SEC), now >= lib.T(1577836800 * SEC), now <= lib.T(3976214400 * SEC)]
         v = []
         for f in ir.fields(LT):
             v.append({'limit': F(rate), 'burst': z3.BitVecVal(burst, 64), 'tokens': tokens, 'last': TimeV(last)}.get(f['name'], Lazy(f['type'], 'lim.' + f['name'])))
